@@ -425,3 +425,45 @@ mod tests {
         assert_eq!(factors.len(), 1);
     }
 }
+
+/// Access to the private pieces of this module for the verification harness.
+#[cfg(feature = "verif-hooks")]
+pub mod verif {
+    use super::{Ell, Point};
+    use num::BigInt;
+    pub type P3 = (BigInt, BigInt, BigInt);
+    fn pt(p: &P3) -> Point {
+        Point {
+            x: p.0.clone(),
+            y: p.1.clone(),
+            z: p.2.clone(),
+        }
+    }
+    fn tp(p: Point) -> P3 {
+        (p.x, p.y, p.z)
+    }
+    fn ell(a: &BigInt, n: &BigInt) -> Ell {
+        Ell {
+            a: a.clone(),
+            n: n.clone(),
+        }
+    }
+    /// pts: (p1, p2, a) triples on curves y^2 = x^3 + a x + b mod n.
+    pub fn many_adds(pts: &[(P3, P3, BigInt)], n: &BigInt) -> Result<Vec<P3>, BigInt> {
+        let v: Vec<(Point, Point, Ell)> = pts.iter().map(|(p, q, a)| (pt(p), pt(q), ell(a, n))).collect();
+        Point::many_adds(&v).map(|r| r.into_iter().map(tp).collect())
+    }
+    pub fn many_muls(pts: &[(P3, BigInt)], e: BigInt, n: &BigInt) -> Result<Vec<P3>, BigInt> {
+        let v: Vec<(Point, Ell)> = pts.iter().map(|(p, a)| (pt(p), ell(a, n))).collect();
+        Point::many_muls(&v, e).map(|r| r.into_iter().map(tp).collect())
+    }
+    pub fn many_simplify(pts: &[P3], n: &BigInt) -> Result<Vec<P3>, BigInt> {
+        let v: Vec<Point> = pts.iter().map(pt).collect();
+        Point::many_simplify(&v, n).map(|r| r.into_iter().map(tp).collect())
+    }
+    pub fn ecm_oneshot_parallel(pts: &[(P3, BigInt)], n: &BigInt, b1: u64, b2: u64) -> Result<(), BigInt> {
+        let ps: Vec<Point> = pts.iter().map(|(p, _)| pt(p)).collect();
+        let cs: Vec<Ell> = pts.iter().map(|(_, a)| ell(a, n)).collect();
+        super::ecm_oneshot_parallel(ps, cs, b1, b2)
+    }
+}
